@@ -31,6 +31,18 @@ var engineAssumptions = []string{
 
 var checks = []Check{
 	{
+		ID: "C11", Title: "no byte sequence from a client or a backend can crash or wedge the proxy", Level: "exploration",
+		LevelText: "bounded-exhaustive input enumeration through the real parsers and handlers: every byte string over a 12-symbol RESP alphabet up to length 6/7 through decoder + dispatch, every supported command x argument shapes, every length-field boundary x truncation, nesting depths up to 8e6 and nested maximum-length arrays in isolated child processes (fatal errors and memory are observed from outside), every MOVED/ASK/CLUSTERDOWN text shape through the full stack, every CLUSTER NODES text of <= 2 lines from field alphabets under both map orders, every SCAN reply shape, and each crash family end to end with a second well-behaved connection",
+		Technique: "bounded-exhaustive input enumeration on the real code (process-isolated for fatal inputs) + schedule exploration of the end-to-end cases",
+		Rule:      "distinct inputs (byte strings, structured requests, backend reply texts/shapes), each evaluated once per enumerated environment (map order)",
+		Assumptions: append([]string{"memory is measured as runtime.MemStats.Sys inside the isolated child", "alphabet chosen from the RESP type bytes, digits, CR, LF, a letter and space"}, engineAssumptions...),
+		Jobs: []Job{
+			{Pkg: "proc/redis", Scenarios: []string{"C11/inputs"}, Shards: 16, QuickS: 150, ThoroughS: 900},
+			{Pkg: "proc/redis", Scenarios: []string{"C11/backend"}, Shards: 8, QuickS: 120, ThoroughS: 300},
+			{Pkg: "proc/redis", Scenarios: []string{"C11/end-to-end"}, Shards: 4, QuickS: 60, ThoroughS: 300},
+		},
+	},
+	{
 		ID: "C04", Title: "slot migration and failover are invisible to clients", Level: "model_checking",
 		LevelText: "every history up to depth 4/5 (plus full migration scripts) over set-migrating / migrate key / finalise / failover (old master up or down) / refresh round interleaved with GET SET INCR DEL MGET on the moving and a stable slot group, on the real proxy stack against the mini cluster (ASK for absent keys of a migrating slot, ASKING consumed by the next command, MOVED from non-owners and replicas); plus all schedules within bounds of an ASK-redirected INCR racing with other traffic on the target node's connection",
 		Technique: "exhaustive enumeration of migration/failover histories + preemption/delay-bounded schedule exploration on the real proxy stack",
